@@ -754,14 +754,20 @@ func checkCommitClassification(p *Prog, r *Roles, res *Result) {
 	}
 	// engine commit: static call to a method named Commit of a type outside the repo
 	var eng *ssa.Call
-	for _, c := range callsIn(commit) {
-		cc, ok := c.(*ssa.Call)
-		if !ok {
+	for _, f := range p.AllFuncs {
+		// Commit itself, or a helper of the adapter that runs only inside it (applyAndCommit)
+		if f.Pkg != tp || f.Synthetic != "" || !(f == commit || p.onlyWithin(f, commit, 0)) {
 			continue
 		}
-		sc := cc.Common().StaticCallee()
-		if sc != nil && sc.Name() == "Commit" && sc.Pkg != nil && !strings.HasPrefix(sc.Pkg.Pkg.Path(), modPath) {
-			eng = cc
+		for _, c := range callsIn(f) {
+			cc, ok := c.(*ssa.Call)
+			if !ok {
+				continue
+			}
+			sc := cc.Common().StaticCallee()
+			if sc != nil && sc.Name() == "Commit" && sc.Pkg != nil && !strings.HasPrefix(sc.Pkg.Pkg.Path(), modPath) {
+				eng = cc
+			}
 		}
 	}
 	if eng == nil {
@@ -863,12 +869,16 @@ func checkCommitClassification(p *Prog, r *Roles, res *Result) {
 	okConf := false
 	// Commit itself and the helpers whose result Commit returns
 	region := []*ssa.Function{commit}
-	for _, b := range commit.Blocks {
-		if ret, isRet := b.Instrs[len(b.Instrs)-1].(*ssa.Return); isRet && len(ret.Results) > 0 {
-			for _, v := range resolveAllCells(ret.Results[0]) {
-				if hc, ok := v.(*ssa.Call); ok {
-					if sc := hc.Common().StaticCallee(); sc != nil && sc.Blocks != nil && sc.Pkg == tp && p.onlyWithin(sc, commit, 0) {
-						region = append(region, sc)
+	inReg := map[*ssa.Function]bool{commit: true}
+	for i := 0; i < len(region) && i < 6; i++ {
+		for _, b := range region[i].Blocks {
+			if ret, isRet := b.Instrs[len(b.Instrs)-1].(*ssa.Return); isRet && len(ret.Results) > 0 {
+				for _, v := range resolveAllCells(ret.Results[0]) {
+					if hc, ok := v.(*ssa.Call); ok {
+						if sc := hc.Common().StaticCallee(); sc != nil && sc.Blocks != nil && sc.Pkg == tp && !inReg[sc] && p.onlyWithin(sc, commit, 0) {
+							inReg[sc] = true
+							region = append(region, sc)
+						}
 					}
 				}
 			}
